@@ -21,9 +21,9 @@ HARNESSES = {
     "c13": [("w_c13", None)],
     "c16": [("w_c16", None)],
     "c08": [("w_c08", ["check_fill_queue", "check_parallel_add_cms_w1", "check_parallel_add_cms_w2", "check_parallel_add_cms_w3", "check_parallel_add_cms_w4", "check_parallel_add_all", "check_parallel_add_all_w45", "check_parallel_records_only", "check_parallel_merging", "check_items_generator"])],
-    "c04": [("w_c13", None)],
-    "c03": [("w_c13", None)],
-    "c18": [("w_c12", ["check_add_value_linear", "check_add_value_hh", "check_update_dict_linear", "check_update_dict_hh"])],
+    "c04": [("w_c13", None), ("w_c12", ["check_add_value_hh", "check_update_dict_hh", "check_update_list_hh"])],
+    "c03": [("w_c13", None), ("w_c12", ["check_add_value_hh", "check_update_dict_hh", "check_update_list_hh"])],
+    "c18": [("w_c12", ["check_add_value_linear", "check_add_value_hh", "check_update_dict_linear", "check_update_dict_hh"]), ("w_c16", ["check_factory"])],
     "c19": [("w_c08", ["check_c19_callback_raises_w1", "check_c19_callback_raises_w2", "check_c19_dead_worker", "check_c19_dead_worker_late", "check_c19_dead_worker_backlog"])],
     "c01": [("w_c12", ["check_add_value_linear", "check_update_dict_linear", "check_update_list_linear", "check_ngram_linear"]), ("w_c15", ["check_linear"]), ("w_c16", ["check_linear"])],
     "c09": [("w_c15", ["check_linear", "check_log16", "check_log8"])],
@@ -140,7 +140,13 @@ def replay_generic(cex):
         out = fn(*cex["args"], **(cex.get("kwargs") or {}))
     except Exception as e:  # a crash of the public API on the concrete input is itself an observation
         import traceback
-        return {"reproduced": False, "how": f"replay raised {type(e).__name__}: {e}", "trace": traceback.format_exc()[-600:]}
+        msg = str(cex.get("message") or "")
+        tb = traceback.format_exc()
+        # CrossHair's counterexample was "<ExcType>: ... when calling check_...": the real library raising the same
+        # exception type on the same arguments, from inside sketchnu, reproduces it
+        same = msg.startswith(type(e).__name__ + ":") and "/sketchnu/" in tb
+        return {"reproduced": bool(same), "how": f"checks/{cex['module']}.py:real_{cex['function'][6:]}{tuple(cex['args'])} against the real library raised {type(e).__name__}: {e}"
+                + (" -- the exception CrossHair predicted, raised inside the library" if same else ""), "trace": tb[-600:]}
     ok, detail = out[0], out[1]
     r = {"reproduced": not ok, "how": f"checks/{cex['module']}.py:real_{cex['function'][6:]}{tuple(cex['args'])} against the real library", "observed": str(detail)[:600]}
     if len(out) > 2 and out[2]:
